@@ -338,10 +338,8 @@ func c04Full(n syntax.Node, comments bool) string {
 // property (known-findings.jsonl, ids C04-…).  They are decided on the *original* tree.
 
 type c04Excl struct {
-	dollarDq    bool // C04-dollar-dq: $"…" literal with a backslash is rewritten to $'…'
 	dqInDqParam bool // C04-dq-in-quoted-param: rewritable "…" inside ${…} that is inside "…" or a here-document
 	assoc       bool // C04-assoc-index: declare -A / typeset -A / local -A anywhere
-	unquoteWord bool // C04-unquote-param-word: [[ "${x<op>word}" … ]] where word has quote-sensitive characters
 	arithOrder  bool // C04-arith-expansion-order: inlined $x in an expression that also assigns x
 	powDollar   bool // C04-bash-unevaluated-pow: an inlinable $x inside the exponent of **
 	inlined     bool // some $x would be inlined (bash leg needs integer-valued variables)
@@ -358,14 +356,10 @@ func (e c04Excl) bashSkip() string {
 		return "nondet"
 	case e.subshellVar:
 		return "subshell-var"
-	case e.dollarDq:
-		return "excl-dollar-dq"
 	case e.dqInDqParam:
 		return "excl-dq-in-quoted-param"
 	case e.assoc:
 		return "excl-assoc"
-	case e.unquoteWord:
-		return "excl-unquote-word"
 	case e.arithOrder:
 		return "excl-arith-order"
 	case e.powDollar:
@@ -384,25 +378,6 @@ func c04LitHasBackslash(dq *syntax.DblQuoted) bool {
 	}
 	l, ok := dq.Parts[0].(*syntax.Lit)
 	return ok && strings.Contains(l.Value, "\\")
-}
-
-func c04WordSensitive(w *syntax.Word) bool {
-	if w == nil {
-		return false
-	}
-	sens := false
-	syntax.Walk(w, func(n syntax.Node) bool {
-		switch n := n.(type) {
-		case *syntax.Lit:
-			if strings.ContainsAny(n.Value, "\\~'\"`") {
-				sens = true
-			}
-		case *syntax.SglQuoted, *syntax.DblQuoted, *syntax.CmdSubst, *syntax.ProcSubst, *syntax.ExtGlob, *syntax.BraceExp:
-			sens = true
-		}
-		return true
-	})
-	return sens
 }
 
 func c04InlinableName(x syntax.ArithmExpr) string {
@@ -524,9 +499,6 @@ func c04Classify(f *syntax.File) c04Excl {
 				fr.inPE = false
 			}
 		case *syntax.DblQuoted:
-			if n.Dollar && c04LitHasBackslash(n) {
-				e.dollarDq = true
-			}
 			if top.quoted && top.inPE && c04LitHasBackslash(n) {
 				e.dqInDqParam = true
 			}
@@ -616,45 +588,11 @@ func c04Classify(f *syntax.File) c04Excl {
 					// harmless in the scratch directory; `set -e` etc. still deterministic
 				}
 			}
-		case *syntax.BinaryTest:
-			for _, side := range []syntax.TestExpr{n.X, n.Y} {
-				if c04UnquoteSensitive(side) {
-					e.unquoteWord = true
-				}
-			}
-		case *syntax.UnaryTest:
-			if c04UnquoteSensitive(n.X) {
-				e.unquoteWord = true
-			}
 		}
 		stack = append(stack, fr)
 		return true
 	})
 	return e
-}
-
-// c04UnquoteSensitive: x is "${p…}" (what unquoteParams rewrites) and the expansion carries a
-// word whose meaning depends on the enclosing quotes.
-func c04UnquoteSensitive(x syntax.TestExpr) bool {
-	w, _ := x.(*syntax.Word)
-	if w == nil || len(w.Parts) != 1 {
-		return false
-	}
-	dq, _ := w.Parts[0].(*syntax.DblQuoted)
-	if dq == nil || len(dq.Parts) != 1 {
-		return false
-	}
-	pe, _ := dq.Parts[0].(*syntax.ParamExp)
-	if pe == nil {
-		return false
-	}
-	if pe.Exp != nil && c04WordSensitive(pe.Exp.Word) {
-		return true
-	}
-	if pe.Repl != nil && (c04WordSensitive(pe.Repl.Orig) || c04WordSensitive(pe.Repl.With)) {
-		return true
-	}
-	return false
 }
 
 // ---------------------------------------------------------------------------------------------
@@ -762,8 +700,6 @@ func c04Program(c *Ctx, pr c04Prog, lift bool) *c04Run {
 		if os.Getenv("C04_DEBUG") != "" {
 			fmt.Fprintf(os.Stderr, "NOT-RT %q\n  printed %q\n", pr.src, origPrinted)
 		}
-	} else if excl.dollarDq && !lift {
-		c.Hist["reparse-skip:excl-dollar-dq"]++
 	} else {
 		g := c04Parse(simpPrinted)
 		if g == nil {
@@ -816,7 +752,7 @@ func c04Show(r ShellResult) string {
 // c04Behaviour executes the property's statement: same stdout and exit status.
 func c04Behaviour(c *Ctx, run *c04Run, known bool) c04RunRes {
 	var res c04RunRes
-	interpOK := run.interp && (known || run.skip == "" || run.skip == "excl-dq-in-quoted-param" || run.skip == "excl-unquote-word" || run.skip == "excl-arith-order" || run.skip == "excl-assoc" || run.skip == "excl-pow-dollar")
+	interpOK := run.interp && (known || run.skip == "" || run.skip == "excl-dq-in-quoted-param" || run.skip == "excl-arith-order" || run.skip == "excl-assoc" || run.skip == "excl-pow-dollar")
 	// interp: the exclusions that are bash-only findings do not restrict the interp leg, except
 	// assoc (interp panics on its own there) — see c04Excl.
 	if run.skip == "excl-assoc" && !known {
@@ -1031,8 +967,8 @@ func (g *c04Gen) testWord(rhs bool) string {
 	case k < 7:
 		return "\"${" + r.Pick([]string{"s", "e", "p", "q"}) + "}\""
 	case k == 7:
-		// default words without quote-sensitive characters (C04-unquote-param-word avoided)
-		return "\"${" + r.Pick([]string{"e", "s", "u"}) + r.Pick([]string{":-", "-", ":+", "+"}) + r.Pick([]string{"d", "x y", "", "*", "$s"}) + "}\""
+		// default words, also quote-sensitive ones ('x', ~, \x): kept quoted since fix 2e8be01
+		return "\"${" + r.Pick([]string{"e", "s", "u"}) + r.Pick([]string{":-", "-", ":+", "+"}) + r.Pick([]string{"d", "x y", "", "*", "$s", "'x'", "~", "\\x", "'x y'"}) + "}\""
 	case k == 8:
 		return "\"${" + r.Pick([]string{"s", "q"}) + r.Pick([]string{"#", "%", "##", "%%"}) + r.Pick([]string{"x", "*", "?", "a"}) + "}\""
 	case k == 9:
@@ -1097,8 +1033,8 @@ func (g *c04Gen) word() string {
 		case k == 7:
 			sb.WriteString(r.Pick([]string{"x", "\\$", "$s", "${e:-\"" + g.dqBody() + "\"}"}))
 		case k == 8:
-			// $"…" without a backslash: never rewritten to $'…' with a changed value (C04-dollar-dq avoided)
-			sb.WriteString("$\"" + r.Pick([]string{"a b", "$s", "x", "a$"}) + "\"")
+			// $"…", also with escapes: left alone since fix 16d3528
+			sb.WriteString("$\"" + r.Pick([]string{"a b", "$s", "x", "a$", "a\\\\n", "\\$x", "\\\\", "q\\\"q"}) + "\"")
 		case k == 9:
 			sb.WriteString("\"$s\"")
 		default:
@@ -1260,12 +1196,9 @@ func c04(c *Ctx) {
 				c04SpecWord(c, false, pl)
 				c.Hist["specword"]++
 			}
-			// $"…": only literals without a backslash (C04-dollar-dq)
-			if !strings.Contains(body, "\\") {
-				if pl, ok := c04ParserLit(true, body); ok {
-					c04SpecWord(c, true, pl)
-					c.Hist["specword-dollar"]++
-				}
+			if pl, ok := c04ParserLit(true, body); ok {
+				c04SpecWord(c, true, pl)
+				c.Hist["specword-dollar"]++
 			}
 		}
 	}
